@@ -25,9 +25,9 @@ func run(c *vkit.Collector, rng *vkit.Rng, budget int) {
 	selfTestOracle(rng.U64)
 	g := &G{r: rng, c: c}
 	t := &T{c: c, used: map[string]int{}, cap: map[string]int{
-		"union": 230 * budget, "union-big": 40 * budget, "invalid-union": 60 * budget,
-		"pair-norm": 110 * budget, "pair-raw": 150 * budget, "pair-norm-big": 15 * budget, "pair-raw-big": 25 * budget,
-		"denorm": 150 * budget, "range": 250 * budget, "maxtile": 400 * budget,
+		"union": 230 * budget, "union-big": 30 * budget, "invalid-union": 60 * budget,
+		"pair-norm": 110 * budget, "pair-raw": 150 * budget, "pair-norm-big": 10 * budget, "pair-raw-big": 15 * budget,
+		"denorm": 70 * budget, "range": 110 * budget, "maxtile": 400 * budget,
 	}}
 	s := &S{c: c, g: g, t: t}
 
@@ -60,5 +60,6 @@ func run(c *vkit.Collector, rng *vkit.Rng, budget int) {
 	for k := 0; k < 800*budget; k++ {
 		s.find1()
 	}
+	t.flush()
 	c.Extra["correspondence_cases_by_category"] = t.used
 }
